@@ -166,6 +166,56 @@ func cmdWorker(args []string) int {
 	enc := json.NewEncoder(os.Stdout)
 	known := loadKnown()
 	reported := map[string]bool{}
+	// systematic part first: single-fault variants of short fixed histories
+	if *raceLog == "" && (*prop == "C09" || *prop == "C06" || *prop == "C07") {
+		vi := 0
+		for bi := 0; bi < enumBases(*tier); bi++ {
+			baseSeed := simrt.Stream(*seed, "enum-base", bi)
+			base := &Plan{V: 1, Property: *prop, Seed: baseSeed, Config: enumBaseConfig(newRand(baseSeed, "config"))}
+			if _, bres := executePlan(base, false, false); bres.Error != "" {
+				bres.Profile = "enum"
+				enc.Encode(bres)
+				return 2
+			}
+			for _, v := range enumVariants(*prop, base) {
+				vi++
+				if vi%*of != *idx {
+					continue
+				}
+				_, res := executePlan(v.Plan, true, false)
+				res.Profile = "enum"
+				res.Enumerated = v.Label
+				if vi/(*of) < 2 {
+					res.Sample = "base seed " + fmt.Sprint(baseSeed) + " variant " + v.Label + ": " + samplePlan(v.Plan)
+				}
+				for _, viol := range res.Violations {
+					if viol.Property != *prop || known.matches(viol) != nil {
+						continue
+					}
+					key := viol.Oracle + "/" + viol.Shape
+					if reported[key] {
+						continue
+					}
+					reported[key] = true
+					v.Plan.Violation = viol
+					min := minimise(v.Plan, viol, 30*time.Second)
+					if _, mres := executePlan(min, true, false); hasViolation(mres.Violations, viol.Property, viol.Oracle) == nil {
+						min = v.Plan
+					} else {
+						min.Violation = hasViolation(mres.Violations, viol.Property, viol.Oracle)
+					}
+					os.MkdirAll(*replays, 0o755)
+					path := filepath.Join(*replays, fmt.Sprintf("%s-%s-enum-%x.json", viol.Property, sanitize(viol.Oracle+"-"+viol.Shape), baseSeed))
+					if writePlan(path, min) == nil {
+						res.PlanFile = path
+					}
+				}
+				if err := enc.Encode(res); err != nil || res.Error != "" {
+					return 2
+				}
+			}
+		}
+	}
 	for run := *idx; run < *maxRuns && time.Now().Before(deadline); run += *of {
 		runSeed := simrt.Stream(*seed, "run", run)
 		r := newRand(runSeed, "config")
